@@ -20,7 +20,89 @@ func effectShapes(f *ssa.Function, keepCall func(name string) bool) []string {
 // effectShapesOpt with includeLocal also lists stores into local slices/arrays
 // (element stores and copy() calls), for functions that build their result in
 // a fresh slice.
+type effArgs struct {
+	keep         func(string) bool
+	includeLocal bool
+}
+
+var lastEffectArgs = map[*ssa.Function]effArgs{}
+
 func effectShapesOpt(f *ssa.Function, keepCall func(name string) bool, includeLocal bool) []string {
+	lastEffectArgs[f] = effArgs{keepCall, includeLocal}
+	return effectShapesSubst(f, keepCall, includeLocal, false)
+}
+
+// effectShapesSubst with through=true also lists the effects of the
+// unexported package helpers f calls, in f's own terms (arguments
+// substituted); the calls of those helpers themselves are not listed. It is
+// the view used when a table does not match the plain effects, so that moving
+// part of a function into a helper is not reported as a change of behaviour.
+func effectShapesSubst(f *ssa.Function, keepCall func(name string) bool, includeLocal bool, through bool, named ...string) []string {
+	if through {
+		o := shapeOpts
+		// helpers the table itself names stay calls: only helpers unknown to the table are seen through
+		tableText := strings.Join(named, " ;; ")
+		o.inline = func(g *ssa.Function) bool {
+			if !helperInlinableLoops(g) || g == f {
+				return false
+			}
+			n := relName(g.String())
+			return !strings.Contains(tableText, n+"(") && !strings.Contains(tableText, abbr(n)+"(")
+		}
+		set := map[string]bool{}
+		visitWithHelpers(f, o, func(g *ssa.Function, subst map[ssa.Value]string, in ssa.Instruction) {
+			r := func(v ssa.Value) string { return exprStrSubst(v, o, subst) }
+			switch x := in.(type) {
+			case *ssa.Store:
+				if rootedInLocal(x.Addr) {
+					ia, isIdx := x.Addr.(*ssa.IndexAddr)
+					if !(includeLocal && isIdx) {
+						return
+					}
+					if a, ok := ia.X.(*ssa.Alloc); ok && arrayLiteral(a) != nil {
+						return
+					}
+				}
+				set["store "+r(x.Addr)+" ← "+r(x.Val)] = true
+			case *ssa.MapUpdate:
+				if rootedInLocal(x.Map) {
+					return
+				}
+				set["mapset "+r(x.Map)+"["+r(x.Key)+"] ← "+r(x.Value)] = true
+			case ssa.CallInstruction:
+				cc := x.Common()
+				if b, ok := cc.Value.(*ssa.Builtin); ok && includeLocal && b.Name() == "copy" {
+					set["copy("+r(cc.Args[0])+", "+r(cc.Args[1])+")"] = true
+					return
+				}
+				name := ""
+				if cc.IsInvoke() {
+					name = cc.Method.Name()
+				} else if sc := cc.StaticCallee(); sc != nil {
+					if o.inline(sc) {
+						return
+					}
+					name = relName(sc.String())
+				} else {
+					return
+				}
+				if keepCall == nil || !keepCall(name) {
+					return
+				}
+				var args []string
+				for _, a := range cc.Args {
+					args = append(args, r(a))
+				}
+				set["call "+name+"("+strings.Join(args, ", ")+")"] = true
+			}
+		})
+		var out []string
+		for s := range set {
+			out = append(out, s)
+		}
+		sort.Strings(out)
+		return out
+	}
 	set := map[string]bool{}
 	allInstrs(f, func(in ssa.Instruction) {
 		switch x := in.(type) {
@@ -132,6 +214,15 @@ func rootedInLocal(v ssa.Value) bool {
 // checkEffects: the effect list must equal want exactly.
 func (c *Ctx) checkEffects(rule, fnKey string, f *ssa.Function, got, want []string) {
 	sort.Strings(want)
+	if a, ok := lastEffectArgs[f]; ok && !sameStringSet(got, want) {
+		// second view: helpers seen through (abbreviated the same way when the table is)
+		alt := effectShapesSubst(f, a.keep, a.includeLocal, true, want...)
+		if sameStringSet(alt, want) {
+			got = alt
+		} else if ab := abbrAll(alt); sameStringSet(ab, want) {
+			got = ab
+		}
+	}
 	g, w := map[string]bool{}, map[string]bool{}
 	for _, s := range got {
 		g[s] = true
@@ -167,4 +258,9 @@ func condShapes(f *ssa.Function) []string {
 	}
 	sort.Strings(out)
 	return out
+}
+
+func sameStringSet(a, b []string) bool {
+	x, y := uniqSorted(a), uniqSorted(b)
+	return strings.Join(x, "\x00") == strings.Join(y, "\x00")
 }
